@@ -1,48 +1,86 @@
-(* C01 correspondence evaluator: for every crash image the harness reports the acknowledged prefix, the write in flight,
+(* C01 correspondence evaluator: for every crash image the harness reports the acknowledged prefix of the history, the
+   operation in flight, what the re-opened shard acknowledged while an asynchronous replay was held (a drop, a write),
    the abstract live WAL (per partition the op indexes of the complete records, oldest first; for a second-level crash
-   the chain parent image -> sub image) and the cells the real recovery produced. The model computes
-   (a) the repaired recovery = last-write-wins of the acknowledged writes (optionally plus the write in flight) and
+   the chain parent image -> sub image), the bookkeeping of the flush in progress (epochs of the complete records, number
+   of completed log removals, partitions already removed from the epoch being removed) and the cells the real recovery
+   produced. The model computes
+   (t) the live-log tie: live_current (Model.v: placement by counter mod n, whole epochs below nj gone, the partitions in
+       gone_parts gone from epoch nj) of the history machine state must equal the log found on disk, record by record;
+   (a) the repaired recovery = last-write-wins of the acknowledged operations (drops remove their measurement), optionally
+       plus the operation in flight, plus what was acknowledged during a held replay; and
    (b) the current recovery = that store overlaid with the live records in partition-round-robin order (once per image
-   of the chain), and reports which of them the observation equals: code 1 = repaired only, 2 = current only,
-   3 = both, 0 = neither. *)
+       of the chain) - which is also what an asynchronous replay does to writes acknowledged before it ran -
+   and reports which of them the observation equals: code 1 = repaired only, 2 = current only, 3 = both, 0 = neither;
+   +4 when the live-log tie fails. *)
 From Coq Require Import NArith ZArith List Bool Arith.
 From OG Require Import C01.Model.
 Import ListNotations.
 
-Record cimage := mkci { ci_acked : nat; ci_inflight : option nat; ci_chain : list (list (list nat)); ci_obs : list (key * Z) }.
-Record ccase := mkcc { cc_batches : list batch; cc_drops : list nat; cc_images : list cimage }.
+Inductive cop := CW (b : batch) | CD (m : N) | CN.       (* write, drop measurement, anything without effect on the contents *)
+
+Record ctie := mkct { ct_eps : list (list nat); ct_nj : nat; ct_gone : list nat }.
+Record cimage := mkci { ci_acked : nat; ci_inflight : option nat; ci_post : list cop; ci_chain : list (list (list nat));
+                        ci_tie : option ctie; ci_obs : list (key * Z) }.
+Record ccase := mkcc { cc_nwal : nat; cc_ops : list cop; cc_images : list cimage }.
 
 Definition lookup (obs : list (key * Z)) (k : key) : option Z :=
   match find (fun e => key_eqb (fst e) k) obs with Some e => Some (snd e) | None => None end.
 Definition optz_eqb (a b : option Z) : bool :=
   match a, b with Some x, Some y => Z.eqb x y | None, None => true | _, _ => false end.
-Definition universe (bs : list batch) (obs : list (key * Z)) : list key := map fst (concat bs) ++ map fst obs.
+Definition batch_of (o : cop) : batch := match o with CW b => b | _ => [] end.
+Definition universe (ops : list cop) (im : cimage) : list key :=
+  map fst (concat (map batch_of ops)) ++ map fst (concat (map batch_of (ci_post im))) ++ map fst (ci_obs im).
 Definition matches (st : store) (obs : list (key * Z)) (univ : list key) : bool :=
   forallb (fun k => optz_eqb (st k) (lookup obs k)) univ.
 
-Definition replayed (bs : list batch) (parts : list (list nat)) : list batch :=
-  map (fun i => nth i bs []) (replay (total parts) parts).
-(* the acknowledged writes that count: those after the last acknowledged DROP MEASUREMENT (one measurement) *)
-Definition acked_batches (bs : list batch) (drops : list nat) (acked : nat) : list batch :=
-  let start := fold_left (fun acc d => if Nat.ltb d acked then Nat.max acc (S d) else acc) drops 0 in
-  skipn start (firstn acked bs).
-Definition current_store (bs : list batch) (drops : list nat) (im : cimage) : store :=
-  fold_left (fun st parts => over st (lww (replayed bs parts))) (ci_chain im) (lww (acked_batches bs drops (ci_acked im))).
-(* every observed cell carries the value the store has (a not yet acknowledged drop may have removed any part) *)
-Definition submatches (st : store) (obs : list (key * Z)) : bool :=
-  forallb (fun e => optz_eqb (st (fst e)) (Some (snd e))) obs.
+(* the acknowledged history as a batch list: a drop removes the cells of its measurement from everything before it *)
+Definition hist (ops : list cop) : list batch :=
+  fold_left (fun bs o => match o with CW b => bs ++ [b] | CD m => map (keep_not m) bs | CN => bs end) ops [].
 
-Definition image_code (bs : list batch) (drops : list nat) (im : cimage) : nat :=
-  let univ := universe bs (ci_obs im) in
-  let base := lww (acked_batches bs drops (ci_acked im)) in
-  let rep := matches base (ci_obs im) univ ||
+Definition replayed (ops : list cop) (parts : list (list nat)) : list batch :=
+  map (fun i => batch_of (nth i ops CN)) (replay (total parts) parts).
+Definition current_store (ops : list cop) (base : list cop) (im : cimage) : store :=
+  fold_left (fun st parts => over st (lww (replayed ops parts))) (ci_chain im) (lww (hist base)).
+
+(* a drop in flight: other measurements exactly as acknowledged; of the measurement being dropped every observed cell
+   carries a value that some acknowledged write since the last acknowledged drop gave to it (any part may be gone or
+   back at an older flushed value) *)
+Definition ever (bs : list batch) (k : key) (v : Z) : bool :=
+  existsb (fun b => existsb (fun c => key_eqb (fst c) k && Z.eqb (snd c) v) b) bs.
+Definition partial_drop (ops base : list cop) (m : N) (obs : list (key * Z)) (univ : list key) : bool :=
+  forallb (fun k => N.eqb (mst_of k) m || optz_eqb (lww (hist base) k) (lookup obs k)) univ &&
+  forallb (fun e => negb (N.eqb (mst_of (fst e)) m) || ever (hist base) (fst e) (snd e)) obs.
+
+(* ---- live-log tie ---- *)
+Definition tagb (i : nat) : batch := [((N.of_nat i, 0, 0)%N, 0%Z)].
+Definition idx_of (b : batch) : nat := match b with (k, _) :: _ => N.to_nat (fst (fst k)) | [] => 0 end.
+Definition live_idx (n : nat) (t : ctie) : list (list nat) :=
+  let eps := ct_eps t in
+  let st := mkw (map (map tagb) (removelast eps)) (map tagb (last eps [])) 0 (ct_nj t) in
+  map (map (fun eb => idx_of (snd eb))) (live_current n st (ct_gone t)).
+Definition natlist_eqb (a b : list nat) : bool := if list_eq_dec Nat.eq_dec a b then true else false.
+Definition parts_eqb (a b : list (list nat)) : bool := if list_eq_dec (list_eq_dec Nat.eq_dec) a b then true else false.
+Definition tie_ok (n : nat) (im : cimage) : bool :=
+  match ci_tie im, ci_chain im with
+  | Some t, [parts] => parts_eqb (live_idx n t) parts
+  | _, _ => true
+  end.
+
+Definition image_code (n : nat) (ops : list cop) (im : cimage) : nat :=
+  let univ := universe ops im in
+  let acked := firstn (ci_acked im) ops in
+  let base := acked ++ ci_post im in
+  let rep := matches (lww (hist base)) (ci_obs im) univ ||
              match ci_inflight im with
-             | Some i => if existsb (Nat.eqb i) drops then submatches base (ci_obs im)
-                         else matches (apply_batch base (nth i bs [])) (ci_obs im) univ
+             | Some i => match nth i ops CN with
+                         | CD m => matches (lww (hist (acked ++ [CD m] ++ ci_post im))) (ci_obs im) univ ||
+                                   partial_drop ops base m (ci_obs im) univ
+                         | o => matches (lww (hist (acked ++ [o] ++ ci_post im))) (ci_obs im) univ
+                         end
              | None => false
              end in
-  let cur := matches (current_store bs drops im) (ci_obs im) univ in
-  (if rep then 1 else 0) + (if cur then 2 else 0).
+  let cur := matches (current_store ops base im) (ci_obs im) univ in
+  (if rep then 1 else 0) + (if cur then 2 else 0) + (if tie_ok n im then 0 else 4).
 
-Definition case_codes (c : ccase) : list nat := map (image_code (cc_batches c) (cc_drops c)) (cc_images c).
+Definition case_codes (c : ccase) : list nat := map (image_code (cc_nwal c) (cc_ops c)) (cc_images c).
 Definition all_codes (cs : list ccase) : list (list nat) := map case_codes cs.
